@@ -17,6 +17,12 @@ def run(n=150):
     from genproj import gen_project
     failures = []
 
+    def canon(res):
+        # the order of the entries inside one publishDiagnostics list comes out of a hash set whose
+        # order differs from process to process (same schedule, same set): presentation, not compared
+        return json.dumps({k: sorted(json.dumps(x, sort_keys=True) for x in v) for k, v in (res.get("diags") or {}).items()},
+                          sort_keys=True)
+
     def builder_item(i, w, d):
         proj = gen_project(777, i, B.GEN_OPTS["C20"])
         seeds = B.schedule_seeds(777, "selftest", i, 3)
@@ -27,13 +33,12 @@ def run(n=150):
     def els_item(i, w, d):
         hist = E.gen_c28(777, i)
         res = E.run_simels(E.build_c28(hist), w, d, E.sched_args(777, "selftest", i))
-        return [res.get("class"), (res.get("stats") or {}).get("log_hash"), len(res.get("snapshots", [])),
-                json.dumps(res.get("diags"), sort_keys=True)]
+        return [res.get("class"), (res.get("stats") or {}).get("log_hash"), len(res.get("snapshots", [])), canon(res)]
 
     def els29_item(i, w, d):
         hist = E.gen_c29(777, i)
         res = E.run_simels(E.build_c29(hist), w, d, E.sched_args(777, "selftest29", i))
-        return [res.get("class"), (res.get("stats") or {}).get("log_hash"), json.dumps(res.get("diags"), sort_keys=True)]
+        return [res.get("class"), (res.get("stats") or {}).get("log_hash"), canon(res)]
 
     def repl_item(i, w, d):
         h = R.gen_history(777, "B", i)
